@@ -567,7 +567,7 @@ func genC19(seed uint64, tier string, outdir string) *Report {
 	rep.Rule = "a case is one history of environment ops and create / update-metadata / update-challenger over up to four bridges on a fresh instance with the real hook; distinct by hash of the op list; non-trivial = at least one grant or handover succeeded and at least one hook-guarded message was refused"
 	nCases, nOps := 150, 45
 	if tier == "thorough" {
-		nCases, nOps = 3000, 60
+		nCases, nOps = 1500, 60
 	}
 	var texts []string
 	texts = append(texts, c19Capture(seed, 1, rep).Coq())
